@@ -1,1 +1,46 @@
-From WT Require Import Base.Wrap.
+(** * C09 — diff reports exactly the slots that differ. *)
+From WT Require Import Base.Wrap Base.ListX Model.Time Model.Ring Model.Update Model.Handle Model.Cmd Proofs.CmdProofs.
+
+(** equality of values: two NaNs are equal whatever their payloads, a NaN never equals a number,
+    +0 equals -0, otherwise numbers are equal iff their bit patterns are (last-bit differences count) *)
+Theorem C09_value_equality v u :
+  (is_nan v = true -> is_nan u = true -> veq v u = true) /\
+  (is_nan v = true -> is_nan u = false -> veq v u = false) /\
+  (is_nan v = false -> is_nan u = false -> veq v u = ((v =? u) || (is_zero_bits v && is_zero_bits u))) /\
+  veq v u = veq u v /\ veq v v = true.
+Proof.
+  repeat split; [apply veq_nan_nan|apply veq_nan_num|apply veq_num|apply veq_sym|apply veq_refl].
+Qed.
+Print Assumptions C09_value_equality.
+
+(** the listing is exactly the slots that differ, in slot order, with both values *)
+Theorem C09_listing_exact cn step f1 f2 v1 v2 i :
+  diff_vals cn step f1 f2 i v1 v2 =
+  split (map (slot_points step f1 f2) (filter (differs cn step f1 f2) (slots_from i v1 v2))).
+Proof. exact (diff_vals_spec cn step f1 f2 v1 v2 i). Qed.
+Print Assumptions C09_listing_exact.
+
+(** nothing is listed iff no slot differs *)
+Theorem C09_clean_iff_no_slot_differs cn step f1 f2 v1 v2 i :
+  fst (diff_vals cn step f1 f2 i v1 v2) = [] <->
+  forall s, In s (slots_from i v1 v2) -> differs cn step f1 f2 s = false.
+Proof. exact (diff_vals_empty_iff cn step f1 f2 v1 v2 i). Qed.
+Print Assumptions C09_clean_iff_no_slot_differs.
+
+(** the verdict is symmetric *)
+Theorem C09_symmetric step f v1 v2 i :
+  fst (diff_vals true step f f i v1 v2) = [] <-> fst (diff_vals true step f f i v2 v1) = [].
+Proof. exact (diff_vals_empty_sym step f v1 v2 i). Qed.
+Print Assumptions C09_symmetric.
+
+(** a file compared with itself (or with an exact copy: equal header and equal series) is clean *)
+Theorem C09_self_clean fsub h l : diff_core fsub true h l h l = (StOk, []).
+Proof. exact (diff_core_self fsub h l). Qed.
+Print Assumptions C09_self_clean.
+
+(** the comparison itself yields clean / difference / error (unequal layouts, unalike ranges) — never a panic *)
+Theorem C09_verdicts fsub cr sh sl dh dl :
+  fst (diff_core fsub cr sh sl dh dl) = StOk \/ fst (diff_core fsub cr sh sl dh dl) = StDiff \/
+  fst (diff_core fsub cr sh sl dh dl) = StErr.
+Proof. exact (diff_core_status fsub cr sh sl dh dl). Qed.
+Print Assumptions C09_verdicts.
